@@ -2,6 +2,7 @@ import Bgpfu.Model.Readers
 import Bgpfu.Model.Hello
 import Bgpfu.Model.Fetch
 import Bgpfu.Model.FetchInstalled
+import Bgpfu.Lemmas.Totality  -- only so that the matcher congruence lemmas both files need are generated once (C13 imports both via Lemmas/Misc)
 /-!
 Raw-name renaming (C13).
 
